@@ -38,6 +38,7 @@ type httpCase struct {
 	seed   int
 	fail   bool // the response reader fails after the payload (-> Truncated)
 	chunk  int
+	frm    bool // the runtime answers with Lambda-Runtime-Function-Response-Mode: streaming (and an error trailer)
 }
 
 // errAfter yields the payload in chunks and then a read error (or EOF)
@@ -81,8 +82,13 @@ func runHTTPCase(hc httpCase) string {
 			return
 		}
 		respCh := make(chan *interop.InvokeResponseMetrics, 4)
-		sendErr = directinvoke.SendDirectInvokeResponse(map[string]string{"Content-Type": "application/octet-stream"},
-			&errAfter{b: payload, chunk: hc.chunk, fail: hc.fail}, http.Header{}, w, make(chan *interop.Reset), respCh, nil, true, "i1")
+		add := map[string]string{"Content-Type": "application/octet-stream"}
+		trailers := http.Header{}
+		if hc.frm {
+			add[directinvoke.FunctionResponseModeHeader] = "streaming"
+			trailers.Set(directinvoke.FunctionErrorTypeTrailer, "Rt.Err")
+		}
+		sendErr = directinvoke.SendDirectInvokeResponse(add, &errAfter{b: payload, chunk: hc.chunk, fail: hc.fail}, trailers, w, make(chan *interop.Reset), respCh, nil, true, "i1")
 	})
 	srv := httptest.NewServer(r)
 	defer srv.Close()
@@ -152,13 +158,17 @@ func httpCmd(args []string) int {
 			hc.paylen = []int{0, limit, limit + 1, limit + 2, limit * 2, limit / 2, limit + 4097}[cr.Intn(7)]
 		}
 		hc.fail = cr.Intn(5) == 0
+		hc.frm = cr.Intn(3) == 0
 		res := runHTTPCase(hc)
 		tw.Case(fmt.Sprintf("h%d", k))
-		f := 0
+		f, fr := 0, 0
 		if hc.fail {
 			f = 1
 		}
-		tw.Comment("http mode=%s max=%s paylen=%d seed=%d chunk=%d fail=%d defaultlimit=%d -> %s", hexOrDash(hc.mode), hexOrDash(hc.max), hc.paylen, hc.seed, hc.chunk, f,
+		if hc.frm {
+			fr = 1
+		}
+		tw.Comment("http mode=%s max=%s paylen=%d seed=%d chunk=%d fail=%d frm=%d defaultlimit=%d -> %s", hexOrDash(hc.mode), hexOrDash(hc.max), hc.paylen, hc.seed, hc.chunk, f, fr,
 			interop.MaxPayloadSize, res)
 		st.Cases++
 		st.Steps++
@@ -167,7 +177,7 @@ func httpCmd(args []string) int {
 			cls += strings.Fields(res[i:])[0]
 		}
 		st.Inc(cls)
-		st.Mark(drv.Fnv(0, fmt.Sprintf("%s/%s/%d/%v", hc.mode, hc.max, hc.paylen, hc.fail)), hc.paylen > 0)
+		st.Mark(drv.Fnv(0, fmt.Sprintf("%s/%s/%d/%v/%v", hc.mode, hc.max, hc.paylen, hc.fail, hc.frm)), hc.paylen > 0)
 		if k < 2 {
 			st.Sample(fmt.Sprintf("http h%d: mode=%q max=%q paylen=%d fail=%v -> %s", k, hc.mode, hc.max, hc.paylen, hc.fail, res))
 		}
